@@ -353,7 +353,8 @@ impl Display for Number {
 
 impl Number {
     pub fn value(&self) -> i64 {
-        match self.data.as_str() {
+        // The parser accepts the keywords in any letter case
+        match self.data.to_ascii_lowercase().as_str() {
             "true" => 1,
             "false" => 0,
             _ => i64::from_str_radix(&self.data, self.radix).ok().unwrap(),
